@@ -725,19 +725,21 @@ func (g *gen) opFieldType() {
 			slots = append(slots, slotT{20, true}, slotT{11, false})
 		}
 		for _, sl := range slots {
+			// one schema per kind, shared by all pairs (instances never mutate their schemas)
+			byKind := map[string]*Schema{}
+			for _, kind := range kinds {
+				s := g.base.Schema.Clone()
+				f := s.File(mr.File).Msg(mr.Nested).Field(sl.num)
+				g.setKind(f, kind, tt)
+				if sl.repeated {
+					f.Label = "repeated"
+				}
+				byKind[kind] = s
+			}
 			for _, from := range kinds {
 				for _, to := range kinds {
 					if from == to {
 						continue
-					}
-					mk := func(kind string) *Schema {
-						s := g.base.Schema.Clone()
-						f := s.File(mr.File).Msg(mr.Nested).Field(sl.num)
-						g.setKind(f, kind, tt)
-						if sl.repeated {
-							f.Label = "repeated"
-						}
-						return s
 					}
 					if sl.num == 11 && (from == "group" || to == "group") && g.syntax == "proto2" {
 						continue // keep the oneof member simple: a proto2 group renames the field
@@ -747,7 +749,7 @@ func (g *gen) opFieldType() {
 					if sl.repeated {
 						variant += "/repeated"
 					}
-					g.emitPair("field-type", variant, mr.File, fmt.Sprintf("%s#%d", mr.Nested, sl.num), mr.Depth, mk(from), mk(to), g.typeExpects(mr, f, from, to)...)
+					g.emitPair("field-type", variant, mr.File, fmt.Sprintf("%s#%d", mr.Nested, sl.num), mr.Depth, byKind[from], byKind[to], g.typeExpects(mr, f, from, to)...)
 				}
 			}
 		}
